@@ -124,7 +124,7 @@ func (fr *Frame) ghostAt(kind string, ord int, name, when string, reach T, st *S
 	}
 	ex := fr.ex
 	for _, g := range fc.Ghosts {
-		if g.Ordinal != ord || g.When != when {
+		if (g.Ordinal != ord && g.Ordinal != -1) || g.When != when {
 			continue
 		}
 		if !(g.Callee == name || (kind != "call" && g.Callee == kind)) {
@@ -281,8 +281,11 @@ func verifyFunc(L *Loaded, fc *FuncContract, fn *ssa.Function) (res *FuncResult)
 		if len(fc.Ensures) > 0 || len(fc.Modifies) > 0 {
 			ex.cover(fmt.Sprintf("vacuity:ret%d", ord), r.reach, tTrue, where, "return is reachable under the precondition")
 		}
-		if len(fc.Modifies) > 0 {
+		if len(fc.Modifies) > 0 && !fc.NoFrame {
 			fr.frameCheck(fc, r, where, ord)
+		}
+		if fc.NoFrame {
+			ex.assumed["modifies clause of "+shortKey(fc.Key)+" is not checked against its body (noframe): callers trust it"] = true
 		}
 	}
 	res.Obligations = ex.obls
@@ -296,10 +299,13 @@ func verifyFunc(L *Loaded, fc *FuncContract, fn *ssa.Function) (res *FuncResult)
 func (fr *Frame) ghostAtReturn(ord int, r retRec, penv *Env) {
 	fc := fr.ex.fc
 	for _, g := range fc.Ghosts {
-		if g.Callee != "return" || g.Ordinal != ord || g.Kind != "assert" {
+		if g.Callee != "return" || (g.Ordinal != ord && g.Ordinal != -1) || g.Kind != "assert" {
 			continue
 		}
+		// locals are resolved at the return instruction (deferred calls have run)
+		penv.atBlock, penv.atInstr = r.instr.Block(), r.instr
 		c := penv.evalBool(g.Clause)
+		penv.atBlock, penv.atInstr = nil, nil
 		fr.ex.oblige(fmt.Sprintf("at:return@%d.%s", ord, clauseName(g.Clause, 0)), "assert", g.Clause.Props, r.reach, c, g.Clause.where(), g.Clause.Text)
 	}
 }
